@@ -184,8 +184,21 @@ def client_init(i): return not (i & 1)
 class Check(PropertyCheck):
     prop = "C30"
     design_ref = "§5 C30"
-    level_text = "TBD"
-    level_note = "TBD"
+    level_text = ("Lean theorems over ALL event sequences (stream data/FIN/reset on any id from either side, connection close, "
+                  "hook completions, datagrams) and for ANY behaviour of the per-stream child layers (abstract ChildOps): "
+                  "allocated_ids_unique, id_bits + allocator_id_bits (id % 4 = 2*uni + initiator-is-server), "
+                  "pairing_is_partial_bijection (equal directionality), pairing_is_stable, signals_reach_only_pair and "
+                  "stream_commands_address_registered_streams; proved by an invariant of the stream table preserved by every "
+                  "step (no bound on streams or events). The executable model (child = C29 TCP/UDP relay model) is tied to the "
+                  "real RawQuicLayer(force_raw=True) by step-wise comparison of all commands, the (client id, server id) table "
+                  "and next_stream_id.")
+    level_note = ("modelled: _handle_event stream registration, event_to_child translation (SendData/CloseConnection/"
+                  "CloseTcpConnection/OpenConnection), close_stream_layer, reset preservation, connection-close fan-out incl. the "
+                  "AssertionError paths (registration guard; close_stream_layer on a server side that was never opened). Not "
+                  "modelled: RawQuicLayer's own OpenConnection on Start (server taken as connected), force_raw=False (NextLayer "
+                  "protocol detection), aioquic itself. Re-entrant ConnectionClosed into a child whose generator is suspended is "
+                  "delivered after the child's step in the model (indistinguishable for TCPLayer, which is already `done`). "
+                  "The tie is differential, not a proof.")
     technique = "Lean 4 proof (invariant over all event interleavings of the stream-id bookkeeping, children abstract) + step-wise model-vs-code correspondence via world.py"
     rule = ("schedules over stream data / FIN / reset on bidi+uni, client- and server-initiated streams (<= 6 streams), "
             "connection close from either side, hook completions for any pending stream (keep/edit), datagrams; ~10% wild "
